@@ -19,6 +19,12 @@ OPT_NOTE = ("optimiser model (coq/model/Optimiser.v) replayed bit-for-bit agains
             "MCOptimiser::optimise_state on scripted and real states")
 
 PROPS = {
+    "C09": dict(props_file="props/C09.v", engines=[("cli", dict(quick=4, thorough=60)), ("opt", dict(focus="C06", quick=120, thorough=3000))],
+                design="DESIGN.md section 4 C09"),
+    "C10": dict(props_file="props/C10.v", needs_gen=True, engines=[("cli", dict(quick=5, thorough=80)), ("tables", dict(groups=False, labels=True))],
+                design="DESIGN.md section 4 C10"),
+    "C11": dict(props_file="props/C11.v", needs_gen=True, engines=[("geom", dict(quick=[("C11", 4000)], thorough=[("C11", 200000)])), ("cli", dict(quick=3, thorough=40))],
+                design="DESIGN.md section 4 C11"),
     "C08": dict(props_file="props/C08.v", needs_gen=True,
                 engines=[("opt", dict(focus="C08", quick=150, thorough=3000)),
                          ("geom", dict(quick=[("C08", 1200)], thorough=[("C08", 40000)]))],
@@ -61,7 +67,7 @@ PROPS = {
                 design="DESIGN.md section 4 C18"),
     "C19": dict(props_file="props/C19.v", engines=[("opt", dict(focus="C19", quick=250, thorough=6000))],
                 design="DESIGN.md section 4 C19"),
-    "C20": dict(props_file="props/C20.v", engines=[("opt", dict(focus="C20", quick=250, thorough=6000))],
+    "C20": dict(props_file="props/C20.v", engines=[("opt", dict(focus="C20", quick=250, thorough=6000)), ("cli", dict(quick=2, thorough=30))],
                 design="DESIGN.md section 4 C20"),
 }
 
@@ -339,6 +345,8 @@ import eng_parse
 ENGINES["parse"] = eng_parse.run
 import eng_geom
 ENGINES["geom"] = eng_geom.run
+import eng_cli
+ENGINES["cli"] = eng_cli.run
 
 
 def run_engines(prop, conf, tier, seed, broken_gate=False):
